@@ -8,6 +8,7 @@ import (
 	"fmt"
 	"math"
 	"os"
+	"path/filepath"
 	"sort"
 	"strconv"
 	"strings"
@@ -305,8 +306,13 @@ func sameSet(a, b []string) bool {
 
 func c16Compare(dir string, sh dsShape, fl c14Flags) string {
 	_, fileArgs := sh.write(dir)
+	return c16CompareArgs(append(fl.args(), fileArgs...))
+}
+
+// c16CompareArgs runs benchstat with args (args[0:2] = -format csv) and again
+// with the text format, and compares the two renderings.
+func c16CompareArgs(args []string) string {
 	var csvOut, csvErr, txtOut, txtErr bytes.Buffer
-	args := append(fl.args(), fileArgs...)
 	if err := benchstat(&csvOut, &csvErr, args); err != nil {
 		return "benchstat csv: " + err.Error()
 	}
@@ -413,6 +419,108 @@ func c16Compare(dir string, sh dsShape, fl c14Flags) string {
 		}
 	}
 	return ""
+}
+
+// ---- column header trees through the real command ----
+
+type c16TreeCase struct {
+	Col  string
+	Cols []int // column tuples, each a 3-bit number: bit i is the value (1 or 2) of field i
+	Rows int
+}
+
+func c16TreeRun(dir string, cs c16TreeCase) string {
+	var b strings.Builder
+	for r := 0; r < cs.Rows; r++ {
+		for rep := 0; rep < 2; rep++ {
+			for _, t := range cs.Cols {
+				fmt.Fprintf(&b, "Benchmark%c/a=%d/b=%d/c=%d 1 %d ns/op\n", 'X'+r, 1+t&1, 1+(t>>1)&1, 1+(t>>2)&1, 100*(r+1)+10*t+rep)
+			}
+		}
+	}
+	p := filepath.Join(dir, "tree.txt")
+	if err := os.WriteFile(p, []byte(b.String()), 0o644); err != nil {
+		return err.Error()
+	}
+	return c16CompareArgs([]string{"-format", "csv", "-row", ".name", "-col", cs.Col, p})
+}
+
+func c16Trees(c *mc.Check) {
+	replay := func(raw json.RawMessage) string {
+		var cs c16TreeCase
+		if err := json.Unmarshal(raw, &cs); err != nil {
+			return err.Error()
+		}
+		dir, _ := os.MkdirTemp("", "verif-c16t-")
+		defer os.RemoveAll(dir)
+		var msg string
+		if p := mc.Catch(func() { msg = c16TreeRun(dir, cs) }); p != "" {
+			return p
+		}
+		return msg
+	}
+	cols := []string{"/a,/b,/c", "/c,/a,/b", "/b,/c"}
+	f := c.Family("header-trees-through-benchstat", fmt.Sprintf("every non-empty set of column tuples over three sub-name keys with two values each (255 sets: every shape of a three-level header tree with ≤2 children per node — chains, a branching node before / after / between others on every level) × column projections %q × 1–2 rows, written as a file in every first-appearance order that is a rotation of the sorted order, run through the real benchstat as text and as CSV: the text parses (every header cell boundary on a column bar, every column under exactly one header cell per level, no trailing blanks) and agrees with the CSV on header values per level, rows, cells, deltas and warnings; a panic in either rendering is a violation; non-trivial = sets with ≥3 columns", cols), replay)
+	if c.Replaying() {
+		return
+	}
+	var cases []c16TreeCase
+	for set := 1; set < 256; set++ {
+		var ts []int
+		for t := 0; t < 8; t++ {
+			if set&(1<<t) != 0 {
+				ts = append(ts, t)
+			}
+		}
+		for rot := 0; rot < len(ts); rot++ {
+			if rot > 0 && !c.Thorough() && rot != len(ts)/2 {
+				continue
+			}
+			r := append(append([]int{}, ts[rot:]...), ts[:rot]...)
+			for _, col := range cols {
+				for rows := 1; rows <= 2; rows++ {
+					if rows == 2 && !c.Thorough() && set%5 != 0 {
+						continue
+					}
+					cases = append(cases, c16TreeCase{col, r, rows})
+				}
+			}
+		}
+	}
+	f.Bounds["cases"] = len(cases)
+	dirs := make([]string, mc.Workers())
+	for i := range dirs {
+		dirs[i], _ = os.MkdirTemp("", "verif-c16t-")
+		defer os.RemoveAll(dirs[i])
+	}
+	done := mc.ParRange(uint64(len(cases)), 8, c.TimeUp, func(w int, lo, hi uint64) {
+		l := f.Local()
+		for i := lo; i < hi; i++ {
+			cs := cases[i]
+			var msg string
+			if p := mc.Catch(func() { msg = c16TreeRun(dirs[w], cs) }); p != "" {
+				msg = p
+			}
+			l.Evals++
+			if len(cs.Cols) >= 3 {
+				l.Nontrivial++
+			}
+			l.Outcome(fmt.Sprintf("ok=%v", msg == ""))
+			if msg != "" {
+				sig := "text-vs-csv"
+				if strings.HasPrefix(msg, "text layout:") {
+					sig = "text-layout"
+				}
+				c.Fail(f, sig, cs, msg)
+			}
+		}
+		l.Flush()
+	})
+	if done < uint64(len(cases)) {
+		f.Capped(fmt.Sprintf("time cap: %d of %d cases", done, len(cases)))
+	}
+	f.Sample(c16TreeCase{"/a,/b,/c", []int{0, 4, 2}, 1})
+	f.Done()
 }
 
 func c16TextVsCSV(c *mc.Check) {
